@@ -404,6 +404,24 @@ class C15(HttpProp):
                         f"http POST as hyph=latest:{c} hyph={c} snapshot chunks:3,4", f"http GET snap - hyph={c} absent e",
                         "dumpall", "rows", f"http POST av hyph=nil hyph={c} history brk:9", "dumpall", "rows"]
             out.append(Case(f"c15-manyrefusals-{k}", ops, mode="http"))
+        # the same grammar through the real executable (whatever main() wraps around the application sees
+        # every refusal too: unknown paths, wrong methods, malformed ids, bad headers, broken bodies)
+        for k in range(sizes(tier, 3, 12)):
+            r = random.Random(rng.getrandbits(32))
+            ops = ["boot listen=flag:1 dir=flag allow=none versions=default days=default" + (" log=debug" if k % 2 else "")]
+            for c in (1, 2):
+                ops += [f"http@0 POST av hyph=nil hyph={c} history b:1,{c}", f"http@0 POST av hyph=latest:{c} hyph={c} history b:2,{c}"]
+            ops += ["http@0 POST as hyph=latest:1 hyph=1 snapshot b:9"]
+            # (on the wire, white space around a header value is not part of the value: the `space` spelling of
+            # an id is a malformed request only when the header is handed to the application verbatim)
+            wire = [q for q in reqs if " space=" not in q]
+            for j, rq in enumerate(r.sample(wire, min(len(wire), 45))):
+                rq = "http@0 " + rq[5:]
+                ops += (["dumpall", rq, "dumpall"] if j % 3 == 0 else [rq])
+            for c in (1, 2):
+                ops += ["dumpall", f"http@0 POST av hyph=latest:{c} hyph={c} history b:5,{c}", "dumpall", f"http@0 GET gcv hyph=anc:{c}:1 hyph={c} absent e"]
+            ops += ["kill"]
+            out.append(Case(f"c15-bin-{k}", ops, {"only": "sqlite", "bin": True}, mode="bin"))
         # the size limit: limit-1, limit (accepted), limit+1 (refused), one chunk and several
         big = []
         sizesb = [MAX, MAX + 1] if tier != "thorough" else [MAX - 1, MAX, MAX + 1]
@@ -488,6 +506,17 @@ class C20(HttpProp):
         reqs = grid_requests(rng, tier)
         out = []
         per = 60
+        # requests carrying headers that are no part of the protocol (conditional, range, negotiation, proxy headers):
+        # on a server without a list and on one that lists the client, so that each reaches its endpoint
+        xreqs = [q for q in reqs if " xh=" in q]
+        reqs = [q for q in reqs if " xh=" not in q]
+        for k in range(0, len(xreqs), per):
+            ops = state_prefix(random.Random(rng.getrandbits(32)), (1,))
+            ops += ["http POST av hyph=latest:1 hyph=1 history b:1,1", "http POST av hyph=latest:1 hyph=1 history b:1,2", "http POST as hyph=latest:1 hyph=1 snapshot b:9"]
+            if (k // per) % 2 == 1:
+                ops.append("allow 1,2")
+            ops += xreqs[k:k + per]
+            out.append(Case(f"c20-x{k // per}", ops, mode="http"))
         for k in range(0, len(reqs), per):
             ops = state_prefix(random.Random(rng.getrandbits(32)), (1,))
             # every third slice with an allow-list that does not name the client (refusals of every kind
@@ -504,6 +533,15 @@ class C20(HttpProp):
             for _ in range(rng.randint(10, 60)):
                 ops += g.op()
             out.append(Case(f"c20-h{k}", ops, mode="http"))
+        # the real executable under load: dozens of uploads in flight at once (head received, body outstanding)
+        # while ordinary requests arrive; afterwards the stalled uploads break off
+        for k in range(sizes(tier, 2, 6)):
+            ops = ["boot listen=flag:1 dir=flag allow=none versions=default days=default" + (" log=debug" if k % 2 else ""),
+                   "http@0 POST av hyph=nil hyph=1 history b:1", "http@0 POST av hyph=latest:1 hyph=1 history b:2", f"stall {[20, 40, 70][k % 3]}",
+                   "http@0 POST av hyph=latest:1 hyph=1 history b:3", "http@0 GET gcv hyph=anc:1:1 hyph=1 absent e", "http@0 POST as hyph=latest:1 hyph=1 snapshot b:9",
+                   "http@0 GET snap - hyph=1 absent e", "http@0 POST av hyph=nil hyph=1 history b:4", "http@0 POST av hyph=nil hyph=2 history chunks:3,4",
+                   "http@0 GET unknown1 - absent absent e", "unstall", "http@0 POST av hyph=latest:1 hyph=1 history b:5", "http@0 GET gcv hyph=nil hyph=2 absent e", "kill"]
+            out.append(Case(f"c20-load-{k}", ops, {"only": "sqlite", "bin": True}, mode="bin"))
         # responses produced when a storage call fails (500s), on every endpoint
         reqs = ["http POST av hyph=latest:1 hyph=1 history b:6", "http POST av hyph=nil hyph=fresh history b:6",
                 "http GET gcv hyph=nil hyph=1 absent e", "http POST as hyph=latest:1 hyph=1 snapshot b:8", "http GET snap - hyph=1 absent e"]
@@ -582,7 +620,37 @@ class C16(HttpProp):
                             f"http GET gcv hyph=nil {f}={c} absent e", "dumpall",
                             f"http POST av hyph=latest:{L} {f}={c} history b:1,7", "dumpall",
                             f"http POST as hyph=latest:{L} {f}={c} snapshot b:2,7", "dumpall"]
+            # an unlisted client (or the proxy in front of it) claims to be on the server's own host
+            if al not in ("none",):
+                for j, xh in enumerate(("xff-loop", "xff-loop2", "xff-v6", "fwd-loop", "fwd-v6", "xri-loop")):
+                    if (j + k) % 2:
+                        continue
+                    for c in (1, 2, 3):
+                        ops += ["dumpall", f"http GET snap - hyph={c} absent e xh={xh}", "dumpall", f"http GET gcv hyph=nil hyph={c} absent e xh={xh}", "dumpall",
+                                f"http POST av hyph=latest:{c} hyph={c} history b:1,{c} xh={xh}", "dumpall",
+                                f"http POST as hyph=latest:{c} hyph={c} snapshot b:2,{c} xh={xh}", "dumpall"]
             out.append(Case(f"c16-{k}", ops, {"allow": al}, mode="http"))
+        # the real executable with an allow-list given by flag / repeated flags / CLIENT_ID, started on a directory
+        # that already holds data of an unlisted client: requests of listed and unlisted clients taking turns on ONE
+        # persistent connection (a pooling reverse proxy), on fresh connections, and with forwarding headers —
+        # every connection reaches the server from the loopback interface
+        for k in range(sizes(tier, 4, 16)):
+            src = ["flag:1", "env:1", "flags:1,3", "flag:1,3"][k % 4]
+            ops = ["boot listen=flag:1 dir=flag allow=none versions=default days=default"]
+            for c in (1, 2):
+                ops += [f"http@0 POST av hyph=nil hyph={c} history b:1,{c}", f"http@0 POST av hyph=latest:{c} hyph={c} history b:2,{c}",
+                        f"http@0 POST as hyph=latest:{c} hyph={c} snapshot b:9,{c}"]
+            ops += ["kill", f"boot listen=flag:1 dir=flag allow={src} versions=default days=default" + (" log=debug" if k % 2 else "")]
+            ops += ["dumpall", "httpk@0 GET snap - hyph=1 absent e", "dumpall", "httpk@0 GET snap - hyph=2 absent e", "dumpall",
+                    "httpk@0 GET gcv hyph=nil hyph=2 absent e", "dumpall", "httpk@0 POST av hyph=latest:2 hyph=2 history b:7", "dumpall",
+                    "httpk@0 POST as hyph=latest:2 hyph=2 snapshot b:8", "dumpall", "httpk@0 POST av hyph=latest:1 hyph=1 history b:3", "dumpall",
+                    "httpk@0 POST av hyph=latest:2 hyph=2 history b:7,7", "dumpall", "httpk@0 GET gcv hyph=nil hyph=4 absent e", "dumpall",
+                    "http@0 GET snap - hyph=2 absent e", "dumpall", "http@0 POST av hyph=latest:2 hyph=2 history b:7,8", "dumpall"]
+            for xh in (("xff-loop", "fwd-v6", "xri-loop") if k % 2 else ("fwd-loop", "xff-v6", "xff-loop2")):
+                ops += [f"http@0 GET snap - hyph=2 absent e xh={xh}", "dumpall", f"http@0 POST av hyph=latest:2 hyph=2 history b:6 xh={xh}", "dumpall",
+                        f"httpk@0 POST as hyph=latest:2 hyph=2 snapshot b:6 xh={xh}", "dumpall", f"http@0 GET gcv hyph=nil hyph=1 absent e xh={xh}"]
+            ops += ["kill"]
+            out.append(Case(f"c16-bin-{k}", ops, {"allow": "bin", "only": "sqlite", "bin": True}, mode="bin"))
         return out
     def _allow_at(self, trace, i):
         al = None
@@ -603,6 +671,12 @@ class C16(HttpProp):
             if o.startswith("allow "):
                 a = o.split()[1]
                 allow = None if a == "none" else (set() if a == "-" else set(a.split(",")))
+                continue
+            if o.startswith("boot "):
+                # the real executable: the list is what its flags / environment say
+                tok = [t for t in o.split() if t.startswith("allow=")]
+                src, _, ids = (tok[0][6:] if tok else "none").partition(":")
+                allow = None if src == "none" else set(x for x in ids.split(",") if x and x != "-")
                 continue
             if not o.startswith("http "):
                 continue
@@ -627,7 +701,7 @@ class C16(HttpProp):
         return fails
     def derive(self, case, trace, backend):
         """listed clients' requests on a server without a list"""
-        if case.meta.get("allow") in (None, "none"):
+        if case.meta.get("allow") in (None, "none", "bin"):
             return []
         ops, keep_idx = [], []
         listed = None
@@ -682,6 +756,24 @@ class C16(HttpProp):
 
 
 # ------------------------------------------------------------------ C06 (in-process part)
+def content_streams():
+    """payloads whose CONTENT looks like something: well-formed compressed streams / containers, bytes
+    that start like a format marker or a header (a leading zero byte, a length prefix), a stream followed by
+    further bytes.  The server treats payloads as opaque: each must come back byte for byte."""
+    import gzip, zlib, bz2, lzma, base64, json as _json
+    text = b"taskchampion " * 40
+    gz = gzip.compress(text, mtime=0)
+    return {"gzip": gz, "gzip-small": gzip.compress(b"hi", mtime=0), "zlib": zlib.compress(text),
+            "zlib-small": zlib.compress(b"x"), "deflate-raw": zlib.compress(text)[2:-4], "bz2": bz2.compress(text),
+            "xz": lzma.compress(text), "zstd-magic": bytes([0x28, 0xB5, 0x2F, 0xFD]) + text[:40],
+            "base64": base64.b64encode(text[:60]), "json": _json.dumps({"v": 1, "data": [1, 2, 3]}).encode(),
+            "gzip-of-gzip": gzip.compress(gz, mtime=0), "gzip-then-more": gz + b"trailing bytes",
+            "gzip-magic-only": bytes([0x1f, 0x8b, 8, 0]) + text[:30],
+            "zero": bytes([0]), "zero-zero": bytes([0, 0, 222, 173, 190, 239]), "zero-one": bytes([0, 1, 2, 3, 4, 5, 6, 7]),
+            "zero-deflate": bytes([0, 1]) + zlib.compress(text)[2:-4], "one-len": bytes([1, 0, 0, 0, 4]) + b"abcd",
+            "len-prefix": (9).to_bytes(4, "big") + b"123456789", "ff": bytes([255] * 9), "nul-tail": b"abc" + bytes(5)}
+
+
 def interleaved_upload_cases(prefix, rng, n):
     """uploads of several clients served by ONE worker with their body chunks arriving alternately
     (A1 B1 A2 B2 ...), then read back: every client gets exactly its own bytes"""
@@ -784,13 +876,7 @@ class C06(HttpProp):
             out.append(Case(f"c06-cls-{name}", ops, mode="http"))
         # payloads that ARE well-formed compressed streams / containers (a storage layer that compresses
         # or sniffs content must still give back the uploaded bytes, not what they decode to)
-        import gzip, zlib, bz2, lzma, base64, json as _json
-        text = b"taskchampion " * 40
-        streams = {"gzip": gzip.compress(text, mtime=0), "gzip-small": gzip.compress(b"hi", mtime=0), "zlib": zlib.compress(text),
-                   "zlib-small": zlib.compress(b"x"), "deflate-raw": zlib.compress(text)[2:-4], "bz2": bz2.compress(text),
-                   "xz": lzma.compress(text), "zstd-magic": bytes([0x28, 0xB5, 0x2F, 0xFD]) + text[:40],
-                   "base64": base64.b64encode(text[:60]), "json": _json.dumps({"v": 1, "data": [1, 2, 3]}).encode(),
-                   "gzip-of-gzip": gzip.compress(gzip.compress(text, mtime=0), mtime=0)}
+        streams = content_streams()
         ops = []
         for name, bs in streams.items():
             body = "b:" + ",".join(str(x) for x in bs)
